@@ -15,15 +15,6 @@ def Tr.shape : Tr → Bool
 
 def shapeTr (l : List Tr) : List Tr := l.filter Tr.shape
 
-/-- an `ExceptionSignal` was enqueued (an ordinary exception was caught by one of the `except Exception`
-scopes of the library — or application code enqueued such a signal itself) -/
-def Tr.isExc : Tr → Bool
-  | .enq _ s => s.cls == .exception
-  | .dropped s => s.cls == .exception
-  | _ => false
-
-/-- no `ExceptionSignal` in the history -/
-def cleanTr (l : List Tr) : Bool := l.all fun t => !t.isExc
 
 /-- the shape view -/
 structure SV where
